@@ -11,7 +11,7 @@ from hypothesis import strategies as st
 
 from pbt import strategies as S
 from pbt.common import Stats, Sub, Violation, scratch_dir
-from pbt.sut import BUILD_MODES, call, mk_converter, mk_converter_via
+from pbt.sut import BUILD_MODES, call, mk_bare_record, mk_converter, mk_converter_via
 
 PROPERTY_ID = "C16"
 RULE = (
@@ -86,6 +86,9 @@ def table_cases(draw, tier="quick", kind="pd"):
         "passthrough": draw(st.booleans()),
         "ambiguous": draw(st.booleans()),
         "build": draw(st.sampled_from(BUILD_MODES)),
+        # history: the same bulk operation already ran on the same table while the converter still lacked its last `late`
+        # records (bulk callers extend converters on the fly); the answer must be that of the converter as it is NOW
+        "late": min(draw(st.sampled_from([0, 0, 0, 1, 2])), len(recs)),
     }
     if kind == "pd":
         case["func"] = draw(st.sampled_from(PD_FUNCS))
@@ -131,11 +134,38 @@ def _classify(case, results, stats, failing_pos=None):
         stats.cls("all-convertible")
 
 
+def _extend(conv, records):
+    for r in records:
+        conv.add_record(mk_bare_record(r["prefix"], r["uri_prefix"], r.get("pattern")))
+        for syn in r["prefix_synonyms"]:
+            conv.add_prefix(syn, r["uri_prefix"], merge=True)
+        for syn in r["uri_prefix_synonyms"]:
+            conv.add_record(mk_bare_record(r["prefix"], syn), merge=True)
+
+
+def _converter_with_history(case, warm_up, stats):
+    """The converter of the case; with late > 0 it is first built without its last records, `warm_up(converter)` runs the
+    bulk operation once (result and exceptions ignored), and only then the remaining records are registered."""
+    late = case.get("late", 0)
+    spec = case["spec"]
+    if not late:
+        return mk_converter_via(spec, case.get("build", "at-once"))
+    recs = spec["records"]
+    conv = mk_converter_via({"delimiter": spec["delimiter"], "records": recs[: len(recs) - late]}, case.get("build", "at-once"))
+    try:
+        warm_up(conv)
+    except Exception:  # noqa: BLE001
+        pass
+    _extend(conv, recs[len(recs) - late:])
+    stats.cls("bulk-call-before-converter-was-completed")
+    return conv
+
+
 def check_pd(case, stats: Stats) -> None:
     import pandas as pd
 
     stats.ev()
-    conv = mk_converter_via(case["spec"], case.get("build", "at-once"))
+    conv = None
     ncols = case["ncols"]
     labels = list(range(ncols)) if case["int_labels"] else [f"c{i}" for i in range(ncols)]
     nrows = len(case["rows"])
@@ -149,15 +179,16 @@ def check_pd(case, stats: Stats) -> None:
         tgt = ncols + 5 if case["int_labels"] else "target"
     else:
         tgt = labels[case["target_index"]]
-    name, scalar = _scalar(conv, case)
-    results = [call(scalar, r[case["column"]]) for r in case["rows"]]
     kw = dict(strict=case["strict"], passthrough=case["passthrough"])
     if case["func"] in ("pd_compress", "pd_expand"):
         kw["ambiguous"] = case["ambiguous"]
-        bulk = lambda: getattr(conv, case["func"])(df, col, target_column=tgt, **kw)  # noqa: E731
+        run = lambda c, frame: getattr(c, case["func"])(frame, col, target_column=tgt, **kw)  # noqa: E731
     else:
-        bulk = lambda: getattr(conv, case["func"])(df, column=col, target_column=tgt, **kw)  # noqa: E731
-    t, v = call(bulk)
+        run = lambda c, frame: getattr(c, case["func"])(frame, column=col, target_column=tgt, **kw)  # noqa: E731
+    conv = _converter_with_history(case, lambda c: run(c, before.copy(deep=True)), stats)
+    name, scalar = _scalar(conv, case)
+    results = [call(scalar, r[case["column"]]) for r in case["rows"]]
+    t, v = call(lambda: run(conv, df))
     first_exc = next((r for r in results if r[0] == "exc"), None)
     if first_exc is not None:
         stats.cls("pd:scalar-raises")
@@ -209,7 +240,6 @@ def _write_table(path: Path, case, rows_with_fault):
 
 def check_file(case, stats: Stats) -> None:
     stats.ev()
-    conv = mk_converter_via(case["spec"], case.get("build", "at-once"))
     sep = case["sep"] or "\t"
     rows = [list(r) for r in case["rows"]]
     col = case["column"]
@@ -225,11 +255,19 @@ def check_file(case, stats: Stats) -> None:
     path = scratch_dir() / f"t{_n[0]}.tsv"
     _write_table(path, case, faulty)
     before = path.read_bytes()
+    kw = dict(sep=case["sep"], header=case["header"], strict=case["strict"], passthrough=case["passthrough"], ambiguous=case["ambiguous"])
+    arg = str(path) if case["as_str_path"] else path
+
+    def warm_up(c):
+        try:
+            getattr(c, case["func"])(arg, col, **kw)
+        finally:
+            path.write_bytes(before)
+
+    conv = _converter_with_history(case, warm_up, stats)
     name, scalar = _scalar(conv, case)
     results = [call(scalar, r[col]) for r in rows]
     first_fail = next((k for k, r in enumerate(results) if r[0] == "exc"), None)
-    kw = dict(sep=case["sep"], header=case["header"], strict=case["strict"], passthrough=case["passthrough"], ambiguous=case["ambiguous"])
-    arg = str(path) if case["as_str_path"] else path
     try:
         t, v = call(lambda: getattr(conv, case["func"])(arg, col, **kw))
         after = path.read_bytes()
@@ -282,7 +320,7 @@ def check_file(case, stats: Stats) -> None:
 
 SUBS = [
     Sub(name="pandas", check=check_pd, strategy=lambda tier: table_cases(tier, "pd"), n={"quick": 700, "thorough": 2500},
-        required_classes=("pd:pd_compress", "pd:pd_expand", "pd:pd_standardize_prefix", "pd:pd_standardize_curie", "pd:pd_standardize_uri", "pd:scalar-raises", "nt:non-convertible-cell")),
+        required_classes=("bulk-call-before-converter-was-completed", "pd:pd_compress", "pd:pd_expand", "pd:pd_standardize_prefix", "pd:pd_standardize_curie", "pd:pd_standardize_uri", "pd:scalar-raises", "nt:non-convertible-cell")),
     Sub(name="files", check=check_file, strategy=lambda tier: table_cases(tier, "file"), n={"quick": 900, "thorough": 3000},
-        required_classes=("file:file_compress", "file:file_expand", "file:quoting-sensitive-header", "file:raises", "nt:failing-row-not-first", "nt:quoting-sensitive-cell")),
+        required_classes=("bulk-call-before-converter-was-completed", "file:file_compress", "file:file_expand", "file:quoting-sensitive-header", "file:raises", "nt:failing-row-not-first", "nt:quoting-sensitive-cell")),
 ]
